@@ -232,14 +232,15 @@ class Message:
     def should_close(self):
         if self.must_close:
             return True
+        # Connection is a list of options and may be repeated: "close, TE"
+        options = set()
         for (h, v) in self.headers:
             if h == "CONNECTION":
-                v = v.lower().strip(" \t")
-                if v == "close":
-                    return True
-                elif v == "keep-alive":
-                    return False
-                break
+                options.update(o.strip(" \t") for o in v.lower().split(","))
+        if "close" in options:
+            return True
+        if "keep-alive" in options:
+            return False
         return self.version <= (1, 0)
 
 
